@@ -1,35 +1,43 @@
 /* fsshim.so — LD_PRELOAD interposition of the libc calls that change the directory tree.
  *
- * Before each such call the shim invokes a callback the harness registered
+ * Before each such call (and before opendir) the shim invokes a callback the harness registered
  * (fxv_shim_register), with the name of the call and its path argument(s). The harness uses
  * it as a *crash point at system-call granularity*: it copies the log directory as it is
  * right before the call takes effect (C11), independent of where the guarded hooks of the
- * subject sit. Without a registered callback the shim is inert.
+ * subject sit. The callback may answer with an errno value: the call then fails with it and has
+ * no effect (C19: fault placements at system-call granularity). Without a registered callback the
+ * shim is inert.
  *
  * Build: cc -shared -fPIC -O1 -o fsshim.so fsshim.c -ldl
  */
 #define _GNU_SOURCE
+#include <dirent.h>
 #include <dlfcn.h>
+#include <errno.h>
 #include <fcntl.h>
 #include <stdarg.h>
 #include <stddef.h>
 #include <sys/types.h>
 
-typedef void (*fxv_cb)(const char *op, const char *a, const char *b);
+typedef int (*fxv_cb)(const char *op, const char *a, const char *b);
 static fxv_cb volatile g_cb = 0;
 static __thread int g_inside = 0;
 
 void fxv_shim_register(fxv_cb cb) { g_cb = cb; }
 int fxv_shim_present(void) { return 1; }
 
-static void notify(const char *op, const char *a, const char *b) {
+/* returns 0 (go on with the call) or an errno value: the call then fails with it, without effect */
+static int notify(const char *op, const char *a, const char *b) {
     fxv_cb cb = g_cb;
+    int e = 0;
     if (cb && !g_inside) {
         g_inside = 1;
-        cb(op, a ? a : "", b ? b : "");
+        e = cb(op, a ? a : "", b ? b : "");
         g_inside = 0;
     }
+    return e;
 }
+#define NOTIFY(op, a, b, failure) do { int e_ = notify(op, a, b); if (e_) { errno = e_; return failure; } } while (0)
 
 #define REAL(name) \
     static __typeof__(name) *real = 0; \
@@ -38,73 +46,73 @@ static void notify(const char *op, const char *a, const char *b) {
 int rename(const char *a, const char *b) {
     static int (*real)(const char *, const char *) = 0;
     if (!real) real = dlsym(RTLD_NEXT, "rename");
-    notify("rename", a, b);
+    NOTIFY("rename", a, b, -1);
     return real(a, b);
 }
 int renameat(int fa, const char *a, int fb, const char *b) {
     static int (*real)(int, const char *, int, const char *) = 0;
     if (!real) real = dlsym(RTLD_NEXT, "renameat");
-    notify("rename", a, b);
+    NOTIFY("rename", a, b, -1);
     return real(fa, a, fb, b);
 }
 int renameat2(int fa, const char *a, int fb, const char *b, unsigned int flags) {
     static int (*real)(int, const char *, int, const char *, unsigned int) = 0;
     if (!real) real = dlsym(RTLD_NEXT, "renameat2");
-    notify("rename", a, b);
+    NOTIFY("rename", a, b, -1);
     return real(fa, a, fb, b, flags);
 }
 int link(const char *a, const char *b) {
     static int (*real)(const char *, const char *) = 0;
     if (!real) real = dlsym(RTLD_NEXT, "link");
-    notify("link", a, b);
+    NOTIFY("link", a, b, -1);
     return real(a, b);
 }
 int linkat(int fa, const char *a, int fb, const char *b, int flags) {
     static int (*real)(int, const char *, int, const char *, int) = 0;
     if (!real) real = dlsym(RTLD_NEXT, "linkat");
-    notify("link", a, b);
+    NOTIFY("link", a, b, -1);
     return real(fa, a, fb, b, flags);
 }
 int unlink(const char *a) {
     static int (*real)(const char *) = 0;
     if (!real) real = dlsym(RTLD_NEXT, "unlink");
-    notify("unlink", a, 0);
+    NOTIFY("unlink", a, 0, -1);
     return real(a);
 }
 int unlinkat(int fd, const char *a, int flags) {
     static int (*real)(int, const char *, int) = 0;
     if (!real) real = dlsym(RTLD_NEXT, "unlinkat");
-    notify("unlink", a, 0);
+    NOTIFY("unlink", a, 0, -1);
     return real(fd, a, flags);
 }
 int symlink(const char *target, const char *linkpath) {
     static int (*real)(const char *, const char *) = 0;
     if (!real) real = dlsym(RTLD_NEXT, "symlink");
-    notify("symlink", linkpath, target);
+    NOTIFY("symlink", linkpath, target, -1);
     return real(target, linkpath);
 }
 int symlinkat(const char *target, int fd, const char *linkpath) {
     static int (*real)(const char *, int, const char *) = 0;
     if (!real) real = dlsym(RTLD_NEXT, "symlinkat");
-    notify("symlink", linkpath, target);
+    NOTIFY("symlink", linkpath, target, -1);
     return real(target, fd, linkpath);
 }
 int mkdir(const char *a, mode_t m) {
     static int (*real)(const char *, mode_t) = 0;
     if (!real) real = dlsym(RTLD_NEXT, "mkdir");
-    notify("mkdir", a, 0);
+    NOTIFY("mkdir", a, 0, -1);
     return real(a, m);
 }
 int rmdir(const char *a) {
     static int (*real)(const char *) = 0;
     if (!real) real = dlsym(RTLD_NEXT, "rmdir");
-    notify("rmdir", a, 0);
+    NOTIFY("rmdir", a, 0, -1);
     return real(a);
 }
 int truncate(const char *a, off_t len) {
     static int (*real)(const char *, off_t) = 0;
     if (!real) real = dlsym(RTLD_NEXT, "truncate");
-    notify("truncate", a, 0);
+    NOTIFY("truncate", a, 0, -1);
     return real(a, len);
 }
 
@@ -116,7 +124,7 @@ int open(const char *a, int flags, ...) {
     if (!real) real = dlsym(RTLD_NEXT, "open");
     mode_t m = 0;
     if (flags & (O_CREAT | O_TMPFILE)) { va_list ap; va_start(ap, flags); m = va_arg(ap, mode_t); va_end(ap); }
-    if (changes(flags)) notify((flags & O_TRUNC) ? "open-trunc" : "open-creat", a, 0);
+    if (changes(flags)) NOTIFY((flags & O_TRUNC) ? "open-trunc" : "open-creat", a, 0, -1);
     return real(a, flags, m);
 }
 int open64(const char *a, int flags, ...) {
@@ -124,7 +132,7 @@ int open64(const char *a, int flags, ...) {
     if (!real) real = dlsym(RTLD_NEXT, "open64");
     mode_t m = 0;
     if (flags & (O_CREAT | O_TMPFILE)) { va_list ap; va_start(ap, flags); m = va_arg(ap, mode_t); va_end(ap); }
-    if (changes(flags)) notify((flags & O_TRUNC) ? "open-trunc" : "open-creat", a, 0);
+    if (changes(flags)) NOTIFY((flags & O_TRUNC) ? "open-trunc" : "open-creat", a, 0, -1);
     return real(a, flags, m);
 }
 int openat(int fd, const char *a, int flags, ...) {
@@ -132,7 +140,7 @@ int openat(int fd, const char *a, int flags, ...) {
     if (!real) real = dlsym(RTLD_NEXT, "openat");
     mode_t m = 0;
     if (flags & (O_CREAT | O_TMPFILE)) { va_list ap; va_start(ap, flags); m = va_arg(ap, mode_t); va_end(ap); }
-    if (changes(flags)) notify((flags & O_TRUNC) ? "open-trunc" : "open-creat", a, 0);
+    if (changes(flags)) NOTIFY((flags & O_TRUNC) ? "open-trunc" : "open-creat", a, 0, -1);
     return real(fd, a, flags, m);
 }
 int openat64(int fd, const char *a, int flags, ...) {
@@ -140,6 +148,14 @@ int openat64(int fd, const char *a, int flags, ...) {
     if (!real) real = dlsym(RTLD_NEXT, "openat64");
     mode_t m = 0;
     if (flags & (O_CREAT | O_TMPFILE)) { va_list ap; va_start(ap, flags); m = va_arg(ap, mode_t); va_end(ap); }
-    if (changes(flags)) notify((flags & O_TRUNC) ? "open-trunc" : "open-creat", a, 0);
+    if (changes(flags)) NOTIFY((flags & O_TRUNC) ? "open-trunc" : "open-creat", a, 0, -1);
     return real(fd, a, flags, m);
+}
+
+/* listing a directory changes nothing: announced as a fault point only */
+DIR *opendir(const char *a) {
+    static DIR *(*real)(const char *) = 0;
+    if (!real) real = dlsym(RTLD_NEXT, "opendir");
+    NOTIFY("opendir", a, 0, (DIR *)0);
+    return real(a);
 }
